@@ -1,5 +1,6 @@
 import Driver.C20
 import Driver.C16
+import Driver.C19
 open Driver
 
 partial def loop (h : IO.FS.Stream) (out : IO.FS.Stream) (f : List String → String → Ans) : IO Unit := do
@@ -12,10 +13,23 @@ partial def loop (h : IO.FS.Stream) (out : IO.FS.Stream) (f : List String → St
     out.putStrLn (f ws impl).render
   loop h out f
 
+partial def loopSt {σ} (h : IO.FS.Stream) (out : IO.FS.Stream) (f : σ → List String → String → σ × Ans) (st : σ) : IO Unit := do
+  let line ← h.getLine
+  if line.isEmpty then return ()
+  let (ws, impl) := splitLine line
+  if ws.isEmpty then
+    out.putStrLn "#"
+    loopSt h out f st
+  else
+    let (st', a) := f st ws impl
+    out.putStrLn a.render
+    loopSt h out f st'
+
 def main (args : List String) : IO UInt32 := do
   let stdin ← IO.getStdin
   let stdout ← IO.getStdout
   match args with
   | ["C16"] => loop stdin stdout C16.step; return 0
+  | ["C19"] => loopSt stdin stdout C19.step {}; return 0
   | ["C20"] => loop stdin stdout C20.step; return 0
   | _ => IO.eprintln "usage: driver <property> < trace"; return 2
